@@ -1174,7 +1174,55 @@ fn shipped_glv<P: GLVConfig>(ctx: &mut Ctx, name: &str, ovr: bool) {
 
 type Iso<C> = <C as WBConfig>::IsogenousCurve;
 
+/// Fixed-base tables with LARGE windows on real 255..381-bit scalars: the toy scalar fields have fewer bits
+/// than any window >= 11, so window-extraction bugs for wide windows cannot show there.  One case = one
+/// (table sizing, scalar); the table is built once per sizing (shared), the oracle is plain double-and-add.
+fn shipped_batch_large_windows<G: CurveGroup>(ctx: &mut Ctx, name: &str) {
+    let bits = <Fr<G> as PrimeField>::MODULUS_BIT_SIZE as usize;
+    // num_scalars hints -> documented window ln(n) ~ ceil(log2 n) * 69 / 100
+    let hints: Vec<usize> = if ctx.quick() { vec![1 << 16, (1 << 17) + 1, (1 << 19) + 1, (1 << 20) + 1] } else { vec![1 << 16, (1 << 17) + 1, (1 << 19) + 1, (1 << 20) + 1, (1 << 21) + 1, (1 << 23) + 1, (1 << 24) + 1] };
+    let scalars: Vec<Scalar> = scalar_alphabet::<Fr<G>>(&[]).into_iter().filter(|s| s.field).collect();
+    let gen = <G as PrimeGroup>::generator();
+    let base = gen.double() + gen; // 3G, not normalised
+    let tables: Vec<(usize, usize, Result<BatchMulPreprocessing<G>, String>)> = hints
+        .iter()
+        .map(|h| (*h, model_batch_window(*h), guard(|| BatchMulPreprocessing::<G>::with_num_scalars_and_scalar_size(base, *h, bits))))
+        .collect();
+    let (nt, ns) = (tables.len() as u64, scalars.len() as u64);
+    ctx.sweep(&format!("shipped_batch_large_window/{name}"), nt * ns, |i, loc| {
+        let [si, ti] = unrank(i, [ns, nt]);
+        let (hint, w, table) = &tables[ti as usize];
+        let s = &scalars[si as usize];
+        loc.class("batch:window>=11");
+        loc.class_if(*w >= 13, "batch:window>=13");
+        let table = match table {
+            Ok(t) => t,
+            Err(e) => {
+                loc.fail_at("batch_large_window", format!("{name}: building the table for num_scalars={hint} (window {w}) panicked: {e}"));
+                return;
+            }
+        };
+        loc.check_at("batch_large_window", table.window == *w, || format!("{name}: table for num_scalars={hint} has window {} (documented rule gives {w})", table.window));
+        let k: Fr<G> = Fr::<G>::from(s.v.clone());
+        let want = dbl_add(base, &s.v).into_affine();
+        match guard(|| table.batch_mul(&[k, Fr::<G>::zero(), k])) {
+            Ok(v) => {
+                loc.check_at("batch_large_window", v.len() == 3 && v[0] == want && v[2] == want && v[1].is_zero(), || {
+                    format!("{name}: BatchMulPreprocessing(num_scalars={hint}, window {w}).batch_mul([k, 0, k]) with k = {} is not [kB, O, kB]", s.label)
+                });
+            }
+            Err(e) => loc.fail_at("batch_large_window", format!("{name}: batch_mul panicked for num_scalars={hint}, k = {}: {e}", s.label)),
+        }
+        if loc.sampling() {
+            loc.sample(format!("{name}: table num_scalars={hint} window={w}, k = {}", s.label));
+        }
+    });
+}
+
 fn shipped_all(ctx: &mut Ctx) {
+    shipped_batch_large_windows::<ark_bls12_381::G1Projective>(ctx, "bls12_381/g1");
+    shipped_batch_large_windows::<ark_ed_on_bls12_381::EdwardsProjective>(ctx, "ed_on_bls12_381");
+    shipped_batch_large_windows::<ark_secp256k1::Projective>(ctx, "secp256k1");
     // ---- the GLV configurations (grep `impl GLVConfig for`): 10 curve crates + test-curves bls12_381 g1
     shipped_glv::<ark_bls12_377::g1::Config>(ctx, "bls12_377/g1", true);
     shipped_glv::<ark_bls12_377::g2::Config>(ctx, "bls12_377/g2", false);
@@ -1237,7 +1285,7 @@ fn shipped_all(ctx: &mut Ctx) {
 // =====================================================================================================
 fn main() {
     let mut ctx = Ctx::from_args("C04");
-    ctx.require(&[
+    ctx.require(&["batch:window>=13", 
         "k=0",
         "k=1",
         "k=r-1",
